@@ -119,7 +119,7 @@ static void check_case(const unsigned char *m, size_t n, const char *what)
 
 int main(int argc, char **argv)
 {
-  static const char *alphabets[] = { "\r\n.a", "\r\n.aR", "\n.a\r ." };
+  static const char *alphabets[] = { "\r\n.a", "\r\n.aR", "\n.\377a\r" };
   const char *alpha; int k, maxlen, maxchunk, n, idx[32];
   unsigned char m[32];
   long tot = 0;
